@@ -222,7 +222,9 @@ pub struct RandCase {
 }
 
 fn rand_strategy(t: Tier) -> BoxedStrategy<RandCase> {
-    let lab = prop_oneof![3 => Just(A6), 2 => Just(B6), 2 => Just(A3), 1 => Just(B3), 1 => Just(Lab::Broadcast), 1 => Just(Lab::ReUse)];
+    // besides the four alphabet labels: labels that a partial or numeric comparison would confuse with them
+    // (same tail as A6 / same bytes as A3 behind three zero bytes / A6's first three bytes)
+    let lab = prop_oneof![6 => Just(A6), 4 => Just(B6), 4 => Just(A3), 2 => Just(B3), 2 => Just(Lab::Broadcast), 2 => Just(Lab::ReUse), 1 => Just(Lab::Six([6, 1, 0, 0, 0, 1])), 1 => Just(Lab::Six([0, 0, 0, 0xAA, 0xBB, 0xCC])), 1 => Just(Lab::Three([2, 0, 0]))];
     let op = prop_oneof![
         8 => (lab.clone(), 0u8..3).prop_map(|(lab, mode)| Op::Send { lab, mode }),
         3 => (lab.clone(), prop_oneof![2 => 2u16..8, 1 => 200u16..300]).prop_map(|(lab, n)| Op::Burst { lab, n }),
